@@ -206,12 +206,12 @@ type validOpts struct {
 // drawShape draws lattice rings (shell first) and the lattice resolution.
 func drawShape(t *rapid.T, o validOpts) (rings [][]P, q int64, shape string) {
 	q = rapid.SampledFrom([]int64{4, 4, 4, 4, 3, 7, 8}).Draw(t, "q")
-	kinds := []string{"grow", "grow", "star", "comb", "zigzag", "polyomino", "polyomino-holes", "grow-holes", "star-holes", "annulus", "nested"}
+	kinds := []string{"grow", "grow", "star", "comb", "zigzag", "polyomino", "polyomino-holes", "grow-holes", "star-holes", "annulus", "pinched", "nested"}
 	if o.collapseBias {
-		kinds = []string{"grow-thin", "comb", "comb", "zigzag", "polyomino", "polyomino-holes", "grow-holes", "comb-hole", "annulus", "nested"}
+		kinds = []string{"grow-thin", "comb", "comb", "zigzag", "polyomino", "polyomino-holes", "grow-holes", "comb-hole", "annulus", "pinched", "nested"}
 	}
 	if o.maxHoles < 2 {
-		kinds = kinds[:len(kinds)-1]
+		kinds = kinds[:len(kinds)-2] // (pinched and nested come with two holes and more)
 	}
 	if o.maxHoles < 1 {
 		kinds = kinds[:len(kinds)-1]
@@ -265,6 +265,11 @@ func drawShape(t *rapid.T, o validOpts) (rings [][]P, q int64, shape string) {
 		rings = [][]P{r}
 	case "nested":
 		rings = gen.Nested(t, q)
+	case "pinched":
+		rings = gen.Pinched(t, q)
+		if len(rings) > 1+max(o.maxHoles, 0) {
+			rings = rings[:1+max(o.maxHoles, 0)]
+		}
 	case "annulus":
 		rings = gen.Annulus(t, q)
 	case "polyomino", "polyomino-holes":
@@ -294,6 +299,27 @@ func placeShape(t *rapid.T, g *kernel.Grid, ids []int, rings [][]P, q int64) (po
 	}
 	focus := ids[rapid.IntRange(0, len(ids)-1).Draw(t, "focus")]
 	lev := kernel.Leveled{G: g, Level: g.LevelOf(focus), Deepest: g.LevelOf(maxID)}
+	// the templates are axis parallel or grow to the right; a lattice preserving map turns them: transposed, mirrored, or rotated
+	// by 45 degrees ((u,v) -> (u-v, u+v): every edge of a rectilinear template becomes a diagonal through pixel corners)
+	if tr := rapid.SampledFrom([]string{"", "", "", "", "", "rot45", "rot45", "transpose", "mirror", "rot45-mirror"}).Draw(t, "turn"); tr != "" {
+		turned := make([][]P, len(rings))
+		for i, r := range rings {
+			turned[i] = make([]P, len(r))
+			for j, p := range r {
+				switch tr {
+				case "rot45":
+					turned[i][j] = P{X: p.X - p.Y, Y: p.X + p.Y}
+				case "rot45-mirror":
+					turned[i][j] = P{X: p.Y - p.X, Y: p.X + p.Y}
+				case "transpose":
+					turned[i][j] = P{X: p.Y, Y: p.X}
+				default:
+					turned[i][j] = P{X: -p.X, Y: p.Y}
+				}
+			}
+		}
+		rings = turned
+	}
 	minX, minY, maxX, maxY := rings[0][0].X, rings[0][0].Y, rings[0][0].X, rings[0][0].Y
 	for _, r := range rings {
 		for _, p := range r {
@@ -362,9 +388,19 @@ func scopeValid(a *analysis, o *report.Outcome) bool {
 		return false
 	}
 	if !a.inside {
-		o.OutOfScope = true
-		o.Label("vertex outside the grid")
-		return false
+		// inside the extent but beyond the last pixel the tool can address (grids whose extent does not divide evenly): the tool
+		// refuses such a vertex as outside its grid, and the case ends as "snapping panicked". If it ever returns a result for it,
+		// the properties over valid polygons apply to that result
+		for _, r := range a.fixed {
+			for _, p := range r {
+				if !a.g.InsideExtent(p) {
+					o.OutOfScope = true
+					o.Label("vertex outside the grid")
+					return false
+				}
+			}
+		}
+		o.Label("vertex in the strip between the last pixel and the border of the extent")
 	}
 	if !a.checkValid() {
 		o.OutOfScope = true
